@@ -355,7 +355,7 @@ impl Scenario for C19 {
     }
     fn info(&self) -> Info {
         Info {
-            rule: "one run = one declaration of a generated corpus (44 make_static_metric! / make_auto_flush_static_metric! declarations: 1-4 labels x 1-4 values, inline / label_enum / renamed values, Counter, IntCounter, Gauge, IntGauge, Histogram, their Local forms and auto-flush forms, backing vector with permuted label order; compiled from /repo's static-metric crate) driven by 1-3 simulated threads: updates of weight 2^k through field paths, get(enum) and try_get(str) chains, explicit flushes, sleeping past the flush interval on the simulated clock while the simulated updater thread ticks, probes of undeclared values; threads exit under the controller's join so TLS destructors are serialised; at quiescence (and at reads in single-threaded runs) every child of the backing vector must hold exactly the updates made through the paths whose declared values are its label values, and no other child may exist; non-trivial = >=2 updates; distinct = distinct (declaration, operation lists, interleaving)",
+            rule: "one run = one declaration of a generated corpus (51 make_static_metric! / make_auto_flush_static_metric! declarations, 44 random and 7 hand-picked adversarial ones: 1-4 labels x 1-4 values, inline / label_enum / renamed values, Counter, IntCounter, Gauge, IntGauge, Histogram, their Local forms and auto-flush forms, backing vector with permuted label order; compiled from /repo's static-metric crate) driven by 1-3 simulated threads: updates of weight 2^k through field paths, get(enum) and try_get(str) chains, explicit flushes, sleeping past the flush interval on the simulated clock while the simulated updater thread ticks, probes of undeclared values; threads exit under the controller's join so TLS destructors are serialised; at quiescence (and at reads in single-threaded runs) every child of the backing vector must hold exactly the updates made through the paths whose declared values are its label values, and no other child may exist; non-trivial = >=2 updates; distinct = distinct (declaration, operation lists, interleaving)",
             assumptions: vec!["the corpus is fixed (tools/gen_static.py, seed in the file); value identifiers avoid the names the expansion uses for its own locals", "sequentially consistent interleavings at shim-visible operations", "auto-flush by interval is modelled as: the first update after sleeping 2.5 simulated seconds flushes everything pending on that thread"],
             real: vec!["prometheus-static-metric proc macros (expansions compiled into this binary)", "prometheus::local::{AFLocalCounter, AFLocalHistogram}, timer::{now_millis, recent_millis, ensure_updater}, vectors and local metrics"],
             stubbed: vec!["the clock and sleep (discrete-event)", "the time-updater thread's scheduling (it runs as a simulated daemon thread)", "thread scheduling", "thread exit ordering (controller joins exiting threads)"],
